@@ -78,7 +78,7 @@ POL_RULE = ("Policy lab under synctest: (3) cache.GetWithExpiration operation se
 PROPS["C18"] = dict(num=18, labs=["doc", "pol"], rule=DOC_RULE + " " + POL_RULE,
     nontrivial="a request with at least one run (doc lab) / any policy-lab case", trivial_classes=[0, 4, 8, 12, 32, 36, 40, 44, 64, 68, 72, 76, 96, 100, 104, 108],
     signatures={"18": "names attached to a hop/destination differ from the resolver's answer for that address", "18.2": "cache served a value no earlier successful callback produced, cached a failure, or mis-reported the callback",
-                "18.3": "provider iteration: a provider after the winner was queried / one before it was skipped / the winner's script does not succeed", "18.4": "reverse-DNS fan-out lost or invented an answer", "18.5": "a cached lookup was re-queried although a stored success for the same key was still within its lifetime (for DNS names: within the lookup's own timeout)"},
+                "18.3": "provider iteration: a provider after the winner was queried / one before it was skipped / the winner's script does not succeed", "18.4": "reverse-DNS fan-out lost or invented an answer", "18.6": "a value was served from the cache although the lifetime it was stored with, counted from the instant it was stored, had run out (e.g. the lifetime restarts on every read)", "18.5": "a cached lookup was re-queried although a stored success for the same key was still within its lifetime (for DNS names: within the lookup's own timeout)"},
     trusted_base=DOC_TRUSTED + ["go-cache Get/Set and cenkalti/backoff Retry are modelled (validated by the correspondence); the process-wide cache is re-created without its real-clock janitor inside the lab"],
     assumptions=["backoff randomisation is switched off in the lab (RandomizationFactor 0) so that retry instants are deterministic"])
 PROPS["C08"] = dict(num=8, labs=["eng", "pol"], rule=ENG_RULE + " One case in five cancels the caller's context at an arbitrary virtual instant. " + POL_RULE,
